@@ -76,6 +76,16 @@ def cases(ctx):
         pub = priv_with_parity(rng, rng.random() < 0.5).get_public_key()
         ctx.count('random-shape'); ctx.count('random-leaves', nl)
         yield from tree_cases(ctx, pub, tree, 'random', every_leaf=nl <= 8)
+    # output keys whose x coordinate starts with a zero byte (searched over a counter in a leaf)
+    found = 0
+    pub = keys[0]
+    for cnt in range(1, 4000):
+        if found >= ctx.n(2, 10): break
+        tree = ('L', [cnt, 'OP_DROP', pub.to_x_only_hex(), 'OP_CHECKSIG'])
+        prog, odd = pub.to_taproot_hex(TT.to_py(tree))
+        if prog.startswith('00'):
+            found += 1; ctx.count('output-x-leading-zero')
+            yield from tree_cases(ctx, pub, tree, 'leading-zero-x')
     # key-path-only and raw-root addresses
     for _ in range(ctx.n(20, 500)):
         pub = priv_with_parity(rng, rng.random() < 0.5).get_public_key()
